@@ -5,6 +5,7 @@ import (
 	"go/token"
 	"go/types"
 	"strings"
+	"sync"
 
 	"golang.org/x/tools/go/ssa"
 )
@@ -366,9 +367,15 @@ func (m *Machine) call(caller *frame, callpos token.Pos, fn Value, args []Value)
 	panic(unsupported{fmt.Sprintf("cannot call %T", fn)})
 }
 
+var funcKeyCache sync.Map
+
 func funcKey(fn *ssa.Function) string {
-	// instantiated generics print as name[T]; keep as is
-	return fn.String()
+	if v, ok := funcKeyCache.Load(fn); ok {
+		return v.(string)
+	}
+	s := fn.String()
+	funcKeyCache.Store(fn, s)
+	return s
 }
 
 func (m *Machine) callSSA(caller *frame, callpos token.Pos, fn *ssa.Function, args []Value, env []Value) Value {
